@@ -17,22 +17,17 @@ import Nstd.Xml.LemmasGen
 namespace Nstd.Xml
 open CSem
 
-/-- iteration of the translated loop bodies of `skipSpace` (outer loop: `inC = false`, comment loop: `inC = true`) -/
+/-- iteration of the translated loop bodies of `skipSpace` (outer loop = depth 0: `inC = false`, comment loop = depth 1:
+    `inC = true`); `.next lvl` continues the loop at depth `lvl` -/
 def skipRun (t : Bytes) : Nat → Bool → St → Res (Pos × Option Pos)
   | 0, _, _ => .fuel
   | f + 1, false, s => (Generated.skipSpace_loop0 t s).bind fun r => match r with
-      | .next s' => skipRun t f false s'
-      | .enter s' _ => skipRun t f true s'
-      | .leave s' => .ok (s'.pos, s'.ce)
+      | .next _ s' => skipRun t f false s'
+      | .enter _ s' _ => skipRun t f true s'
       | .ret s' => .ok (s'.pos, s'.ce)
   | f + 1, true, s => (Generated.skipSpace_loop1 t s).bind fun r => match r with
-      | .next s' => skipRun t f true s'
-      | .enter s' _ => .ok (s'.pos, s'.ce)
-      | .leave s' => (Generated.skipSpace_after1 t s').bind fun r2 => match r2 with
-          | .next s'' => skipRun t f false s''
-          | .enter s'' _ => skipRun t f true s''
-          | .leave s'' => .ok (s''.pos, s''.ce)
-          | .ret s'' => .ok (s''.pos, s''.ce)
+      | .next lvl s' => if lvl = 0 then skipRun t f false s' else skipRun t f true s'
+      | .enter _ s' _ => .ok (s'.pos, s'.ce)
       | .ret s' => .ok (s'.pos, s'.ce)
 
 /-- `skipSpace` (both loops): the model's `skipLoop` is the iteration of the TRANSLATED loop bodies — for every text, cursor,
@@ -51,9 +46,8 @@ theorem skipSpace_is_translation (t : Bytes) : ∀ (f : Nat) (inC : Bool) (p : P
       congr 1
       funext r
       cases r with
-      | next s => exact ih false s.pos s.ce s.tok s.text
-      | enter s l => exact ih true s.pos s.ce s.tok s.text
-      | leave s => rfl
+      | next l s => exact ih false s.pos s.ce s.tok s.text
+      | enter l s loc => exact ih true s.pos s.ce s.tok s.text
       | ret s => rfl
     | true =>
       rw [skipLoop_inner_translated t f p ce tok tx]
@@ -61,17 +55,12 @@ theorem skipSpace_is_translation (t : Bytes) : ∀ (f : Nat) (inC : Bool) (p : P
       congr 1
       funext r
       cases r with
-      | next s => exact ih true s.pos s.ce s.tok s.text
-      | enter s l => rfl
-      | leave s =>
+      | next l s =>
         simp only [skipInnerK]
-        congr 1
-        funext r2
-        cases r2 with
-        | next s => exact ih false s.pos s.ce s.tok s.text
-        | enter s l => exact ih true s.pos s.ce s.tok s.text
-        | leave s => rfl
-        | ret s => rfl
+        by_cases hl : l = 0
+        · simp only [hl, if_true]; exact ih false s.pos s.ce s.tok s.text
+        · simp only [hl, if_false]; exact ih true s.pos s.ce s.tok s.text
+      | enter l s loc => rfl
       | ret s => rfl
 
 /-- one run of the outer loop body, spelled out (`skipOuterK`: how `skipLoop` goes on after each control outcome) -/
@@ -84,11 +73,8 @@ theorem skipSpace_comment_body (t : Bytes) (f : Nat) (p : Pos) (ce : Option Pos)
     skipLoop t (f + 1) true p ce = (Generated.skipSpace_loop1 t ⟨p, ce, tok, tx⟩).bind (skipInnerK t f) :=
   skipLoop_inner_translated t f p ce tok tx
 
-/-- the function body around the loops: `skipSpace` enters its loop at once with the members unchanged, nothing follows the
-    loop, and the statement behind the comment loop is `continue` -/
-theorem skipSpace_frame (t : Bytes) (s : St) :
-    Generated.skipSpace_entry t s = .ok (.enter s []) ∧ Generated.skipSpace_after0 t s = .ok (.ret s) ∧
-      Generated.skipSpace_after1 t s = .ok (.next s) := ⟨rfl, rfl, rfl⟩
+/-- the function body in front of the loop: `skipSpace` enters its loop at once with the members unchanged -/
+theorem skipSpace_frame (t : Bytes) (s : St) : Generated.skipSpace_entry t s = .ok (.enter 0 s []) := rfl
 
 /-- `readToken` behind its `skipSpace()`: the translated body (switch with all nine arms, string scan with the opening quote
     put into the stop set, fall through from `/` into the name scan) computes exactly the model's `tokenAt` — same token
@@ -117,17 +103,14 @@ theorem parseText_loop_body (t : Bytes) (f : Nat) (start : Nat) (p : Pos) (ce : 
       (Generated.parseText_loop0 t start ⟨p, ce, tok, tx⟩).bind (textK t f start) :=
   textLoop_translated t f start p ce tok tx hs
 
-theorem parseText_frame (t : Bytes) (s : St) (start : Nat) :
-    Generated.parseText_entry t s = .ok (.enter s [s.pos.pos]) ∧ Generated.parseText_after0 t start s = .ok (.ret s) :=
-  ⟨rfl, rfl⟩
+theorem parseText_frame (t : Bytes) (s : St) : Generated.parseText_entry t s = .ok (.enter 0 s [s.pos.pos]) := rfl
 
 /-- iteration of the translated loop body of `parseText` -/
 def textRun (t : Bytes) (start : Nat) : Nat → St → Res (Bytes × Pos)
   | 0, _ => .fuel
   | f + 1, s => (Generated.parseText_loop0 t start s).bind fun r => match r with
-      | .next s' => textRun t start f s'
-      | .enter s' _ => .ok (s'.text, s'.pos)
-      | .leave s' => .ok (s'.text, s'.pos)
+      | .next _ s' => textRun t start f s'
+      | .enter _ s' _ => .ok (s'.text, s'.pos)
       | .ret s' => .ok (s'.text, s'.pos)
 
 theorem textRun_eq (t : Bytes) (start : Nat) : ∀ (f : Nat) (p : Pos) (ce : Option Pos) (tok : Token) (tx : Bytes),
@@ -143,12 +126,11 @@ theorem textRun_eq (t : Bytes) (start : Nat) : ∀ (f : Nat) (p : Pos) (ce : Opt
     cases hg : Generated.parseText_loop0 t start ⟨p, ce, tok, tx⟩ with
     | ok r =>
       cases r with
-      | next s =>
-        have hm := parseText_loop0_mono t start _ _ hg
+      | next l s =>
+        have hm := parseText_loop0_mono t start _ _ _ hg
         simp only [Res.ok_bind, textK]
         exact ih s.pos s.ce s.tok s.text (by simp only [] at hm; omega)
-      | enter s l => rfl
-      | leave s => rfl
+      | enter l s loc => rfl
       | ret s => rfl
     | err l c m => rfl
     | oob => rfl
